@@ -288,15 +288,19 @@ theorem i128_limbs {v : Nat} (hv : v < 2 ^ 128) :
 
 /-- `Int::<n+2>::from_i128` preserves the value for every limb count ≥ 2 -/
 theorem intFromI128_spec {v : Nat} (n : Nat) (hv : v < 2 ^ 128) :
-    toInt (intFromI128 (n + 2) v) = signedVal 128 v ∧ WF (intFromI128 (n + 2) v) ∧
-    (intFromI128 (n + 2) v).length = n + 2 := by
+    ∃ l, intFromI128 (n + 2) v = some l ∧ toInt l = signedVal 128 v ∧ WF l ∧ l.length = n + 2 := by
   have ⟨hwf, hs⟩ := i128_limbs hv
   have ⟨h1, h2, h3⟩ := intResize_widen (n + 2) hwf (by simp) (by simp)
-  exact ⟨by unfold intFromI128; rw [h1, hs], h2, h3⟩
+  refine ⟨intResize (n + 2) [v % B, v / B % B], ?_, by rw [h1, hs], h2, h3⟩
+  unfold intFromI128
+  rw [if_neg (by omega)]
 
-/-- `Int::<1>::from_i128` AS WRITTEN keeps only the low limb -/
-theorem intFromI128_one (v : Nat) : intFromI128 1 v = [v % B] := by
-  unfold intFromI128 intResize
+/-- below two limbs the constructor refuses (the assertion added by /repo 77eeede) -/
+theorem intFromI128_narrow (v : Nat) : intFromI128 1 v = none ∧ intFromI128 0 v = none := ⟨rfl, rfl⟩
+
+/-- `Int::<1>::from_i128` AS IT WAS WRITTEN before the repair kept only the low limb -/
+theorem intFromI128Old_one (v : Nat) : intFromI128Old 1 v = [v % B] := by
+  unfold intFromI128Old intResize
   simp
 
 end CB.Encoding
